@@ -68,8 +68,10 @@ class C03(Check):
     def shards(self, tier):
         out = []
         for w in WIDTHS:
-            for eol in ("LF", "CRLF", "LF+blank", "LF-nofinal", "CRLF-nofinal"):
+            for eol in ("LF", "CRLF", "LF+blank", "LF-nofinal", "CRLF-nofinal", "LF+hdr", "CRLF+hdr"):
                 for buf in BUFFERS:
+                    if eol.endswith("+hdr") and (w, buf) not in ((3, 2), (10, 11), (4, 1)):
+                        continue  # header lines with a description that ends in a blank
                     if eol == "LF+blank" and (w, buf) not in ((3, 2), (10, 11), (4, 1)):
                         continue  # an empty line between the two records: a few width / buffer combinations
                     if eol.endswith("-nofinal") and buf not in (2, 11):
@@ -116,7 +118,11 @@ class C03(Check):
 
     def make_index(self, w, eol, buf):
         data, _ = fm.make_fasta(
-            [(n, s, w) for n, s in RECS], b"\r\n" if eol.startswith("CRLF") else b"\n", not eol.endswith("-nofinal"), blank_between=eol.endswith("+blank")
+            [(n, s, w) for n, s in RECS],
+            b"\r\n" if eol.startswith("CRLF") else b"\n",
+            not eol.endswith("-nofinal"),
+            desc=b" first contig \t " if eol.endswith("+hdr") else False,
+            blank_between=eol.endswith("+blank"),
         )
         # the index is built with the same (small) buffer as the streaming: "all buffer sizes" covers both halves
         idx, _asm = index_fasta_file(fm.MemPath(data), buf)
@@ -199,4 +205,4 @@ class C03(Check):
 
 CHECK = C03()
 # scope added in later rounds, kept in the evidence text
-CHECK.rule += " Input files without a final newline (two buffers per width); assemblies of two and three whole-record scaffolds in every order and strand. An empty line between the two records of the input (three width / buffer pairs). CLI: every sixth case also 'restaged' - an older version of the FASTA is indexed by a first invocation, the file is rewritten and FASTA, .fai and .agp are given the same mtime."
+CHECK.rule += " Header lines with a description ending in blanks (three width / buffer pairs, LF and CRLF). Input files without a final newline (two buffers per width); assemblies of two and three whole-record scaffolds in every order and strand. An empty line between the two records of the input (three width / buffer pairs). CLI: every sixth case also 'restaged' - an older version of the FASTA is indexed by a first invocation, the file is rewritten and FASTA, .fai and .agp are given the same mtime."
